@@ -103,6 +103,8 @@ func (hash *Hash) WriteAny(data ...interface{}) error {
 			return fmt.Errorf("hash.WriteAny: invalid type provided as input")
 		}
 
+		verifWrite(toBeWritten.TheDomain, toBeWritten.Bytes)
+
 		// Write out `(<domain_size><domain><data_size><data>)`, so that each domain separated piece of data
 		// is distinguished from others.
 
